@@ -261,7 +261,7 @@ func headerGet(v ssa.Value) (owner ssa.Value, name string, ok bool) {
 func c07Wants(c *Ctx, fn *ssa.Function) {
 	p := c.P
 	name := p.fname(fn)
-	facts := factsAt(fn)
+	_ = factsAt
 	var wParam, rParam *ssa.Parameter
 	for _, prm := range fn.Params {
 		if isHTTPResponseWriter(prm.Type()) {
@@ -327,25 +327,26 @@ func c07Wants(c *Ctx, fn *ssa.Function) {
 		return false, false
 	}
 	n := 0
-	for _, r := range returnsOf(fn) {
+	for _, vr := range virtualReturns(fn) {
+		r := vr
 		if len(r.Results) != 2 {
 			continue
 		}
 		n++
 		b0, isConstBool := constBool(r.Results[0])
 		if isConstBool && !b0 {
-			c.triv(name, "return false", p.ipos(r), "no coding requested")
+			c.triv(name, "return false", p.ipos(vr.Ret), "no coding requested")
 			continue
 		}
 		enc, okEnc := constStr(r.Results[1])
 		construct := "positive answer names a coding the request mentions"
 		if !okEnc || (enc != "gzip" && enc != "deflate") {
-			c.bad(name, construct, p.ipos(r), "a possibly-true answer does not carry one of the constants gzip/deflate")
+			c.bad(name, construct, p.ipos(vr.Ret), "a possibly-true answer does not carry one of the constants gzip/deflate")
 			continue
 		}
 		okM := false
 		if isConstBool && b0 {
-			for f := range facts[r.Block()] {
+			for f := range vr.Facts {
 				if t, whenTrue := mentions(f.Cond, enc); t && whenTrue == f.Pol {
 					okM = true
 				}
@@ -353,11 +354,11 @@ func c07Wants(c *Ctx, fn *ssa.Function) {
 		} else if t, whenTrue := mentions(r.Results[0], enc); t && whenTrue {
 			okM = true
 		}
-		c.check(okM, name, construct+" ("+enc+")", p.ipos(r), "the answer is true only where strings.Index(Accept-Encoding, \""+enc+"\") != -1",
+		c.check(okM, name, construct+" ("+enc+")", p.ipos(vr.Ret), "the answer is true only where strings.Index(Accept-Encoding, \""+enc+"\") != -1",
 			"the function can answer ("+enc+", true) although the request's Accept-Encoding does not mention "+enc)
 		// already-encoded guard
 		okCE := false
-		for f := range facts[r.Block()] {
+		for f := range vr.Facts {
 			b, ok := f.Cond.(*ssa.BinOp)
 			if !ok {
 				continue
@@ -376,7 +377,7 @@ func c07Wants(c *Ctx, fn *ssa.Function) {
 				}
 			}
 		}
-		c.check(okCE, name, "no coding when the writer already carries Content-Encoding ("+enc+")", p.ipos(r),
+		c.check(okCE, name, "no coding when the writer already carries Content-Encoding ("+enc+")", p.ipos(vr.Ret),
 			"only reached when writer.Header().Get(Content-Encoding) == \"\"", "a coding can be chosen although the response already has a Content-Encoding")
 	}
 	if n == 0 {
